@@ -742,6 +742,15 @@ pub fn prefix_for(plan: &Plan, seed: u64, idx: usize, k: usize) -> Vec<String> {
     if k % 4 != 3 {
         return vec![];
     }
+    // systematically: the next and the previous subject of the plan (related programs are
+    // neighbours in the corpus) each run once, alone, on the same thread before the subject; the
+    // remaining prefix runs draw a mixture
+    let n_subjects = plan.subjects.len();
+    match (k / 4) % 3 {
+        0 => return vec![format!("@subject {}", plan.subjects[(idx + 1) % n_subjects].to_json())],
+        1 => return vec![format!("@subject {}", plan.subjects[(idx + n_subjects - 1) % n_subjects].to_json())],
+        _ => {}
+    }
     let mut rng = Rng::new(derive_n(seed, "prefix", (idx as u64) << 16 | k as u64));
     let n = 1 + rng.below(3);
     (0..n)
